@@ -213,7 +213,149 @@ Section Db.
     end.
 
   Definition run (ops : list op) (d : db) : db := fold_left (fun d o => fst (step d o)) ops d.
+
+  (* ================================================================ read-only queries
+     The queries of Database / GrantManager / SessionManager: __getitem__, get, get_node_info (and the typed
+     wrappers get_grant / get_client_session_info / get_user_session_info / client_session_is_revoked),
+     branch_info / get_session_info, get_subordinates, grants, get_authentication_events, find_token,
+     decrypt_branch_id, encrypted_branch_id.  A query returns a value and the store it was asked about: the
+     store component of `xstep` on a query is the argument itself.  An answer is the list of identifiers and the
+     list of (stored key, stored node) the caller is handed. *)
+  Definition answer := (list pystr * list (pystr * node))%type.
+
+  (* an operation names its node by a path, or by a session / branch identifier (its plaintext: the Fernet layer
+     is an authenticated encryption), or by an identifier that does not decrypt *)
+  Inductive target := ByPath (p : list pystr) | ById (plain : pystr) | ByBadId.
+  Definition target_path (t : target) : res (list pystr) :=
+    match t with ByPath p => Ok p | ById s => sid_path s | ByBadId => Err ValueError end.
+
+  (* Database.get, keeping the key under which the node is stored *)
+  Definition q_node (p : list pystr) (d : db) : res (pystr * node) :=
+    k <- branch_key p ;; match assoc k d with Some n => Ok (k, n) | None => Err KeyError end.
+  (* resolution of an identifier: sm[sid] *)
+  Definition resolve (plain : pystr) (d : db) : res (pystr * node) := p <- sid_path plain ;; q_node p d.
+
+  Definition is_grant (n : node) : bool := match n with NGrant _ => true | NInfo _ _ _ _ => false end.
+  (* get_subordinates: [self.db[gid] for gid in node.subordinate if gid in self.db]; a Grant has no subordinate *)
+  Definition present (subs : list pystr) (d : db) : list (pystr * node) :=
+    flat_map (fun s => match assoc s d with Some n => [(s, n)] | None => [] end) subs.
+  Definition q_subs (p : list pystr) (d : db) : res (list (pystr * node)) :=
+    kn <- q_node p d ;;
+    match snd kn with NInfo _ subs _ _ => Ok (present subs d) | NGrant _ => Err AttributeError end.
+  (* _grants: a subordinate that is not a Grant is handed to unpack_branch_key (node.split): AttributeError *)
+  Definition q_grants (p : list pystr) (d : db) : res (list (pystr * node)) :=
+    l <- q_subs p d ;;
+    if forallb (fun kn => is_grant (snd kn)) l then Ok l else Err AttributeError.
+
+  Fixpoint prefixes (pre rest : list pystr) : list (list pystr) :=
+    match rest with [] => [] | x :: r => (pre ++ [x]) :: prefixes (pre ++ [x]) r end.
+  (* _get_nodes, and the comprehension of get_authentication_events *)
+  Fixpoint q_nodes (ps : list (list pystr)) (d : db) : res (list (pystr * node)) :=
+    match ps with [] => Ok [] | p :: r => kn <- q_node p d ;; l <- q_nodes r d ;; Ok (kn :: l) end.
+
+  Definition invalid_branch_id : exc := Refused 1.
+  (* branch_info(branch_id, *args): the levels of node_type = [user; client; grant] that are asked for *)
+  Definition levels (sel : list nat) : list nat :=
+    match sel with [] => [0; 1; 2] | _ => List.filter (fun i => existsb (Nat.eqb i) sel) [0; 1; 2] end%nat.
+  Fixpoint pick {A B} (p : list A) (l : list B) (lv : list nat) : res (list A * list B) :=
+    match lv with
+    | [] => Ok ([], [])
+    | i :: r => match nth_error l i, nth_error p i with
+                | Some b, Some a => ab <- pick p l r ;; Ok (a :: fst ab, b :: snd ab)
+                | _, _ => Err IndexError
+                end
+    end.
+  Definition q_branch_info (sel : list nat) (p : list pystr) (d : db) : res answer :=
+    match q_nodes (prefixes [] p) d with
+    | Ok l => pick p l (levels sel)
+    | Err KeyError => Err invalid_branch_id
+    | Err e => Err e
+    | Unmodelled => Unmodelled
+    end.
+
+  (* get_node_info(branch_id, level): (_path[level], self.get(_path[0 : level + 1])); the typed wrappers check the
+     class of the node: UserSessionInfo at level 0, ClientSessionInfo at level 1, Grant at level 2 *)
+  Definition type_ok (lvl : nat) (n : node) : bool :=
+    match n with
+    | NGrant _ => Nat.eqb lvl 2
+    | NInfo _ _ _ l => Nat.ltb lvl 2 && Nat.eqb l lvl
+    end.
+  Definition q_node_info (lvl : nat) (typed : bool) (p : list pystr) (d : db) : res answer :=
+    match nth_error p lvl with
+    | None => Err IndexError
+    | Some x => kn <- q_node (firstn (S lvl) p) d ;;
+                if typed then (if type_ok lvl (snd kn) then Ok ([], [kn]) else Err ValueError) else Ok ([x], [kn])
+    end.
+
+  (* get_authentication_events(session_id): the client node of the path, then self.get(unpack_branch_key(gid)) for
+     every gid it lists and .authentication_event of each *)
+  Definition q_authn_events (p : list pystr) (d : db) : res answer :=
+    a <- q_node_info 1 false p d ;;
+    match snd a with
+    | [(_, NInfo _ subs _ _)] =>
+        l <- q_nodes (List.map unpack_branch_key subs) d ;;
+        if forallb (fun kn => is_grant (snd kn)) l then Ok ([], l) else Err AttributeError
+    | _ => Err AttributeError
+    end.
+
+  Inductive qkind :=
+  | QGet                                   (* sm[sid] / get(path) / get_user_info / get_grant_argument *)
+  | QNodeInfo (lvl : nat) (typed : bool)   (* get_node_info / get_grant / get_client_session_info / ... *)
+  | QBranchInfo (sel : list nat)           (* branch_info / get_session_info *)
+  | QSubs                                  (* get_subordinates *)
+  | QGrants (by_id : bool)                 (* grants(branch_id=..) / grants(path=..) *)
+  | QAuthnEvents                           (* get_authentication_events(session_id) *)
+  | QFindToken                             (* find_token: no token of that value *)
+  | QDecrypt                               (* decrypt_branch_id / decrypt_session_id *)
+  | QMint.                                 (* encrypted_branch_id( *path): a further identifier of the path *)
+
+  Definition query (q : qkind) (p : list pystr) (d : db) : res answer :=
+    match q with
+    | QGet => kn <- q_node p d ;; Ok ([], [kn])
+    | QNodeInfo lvl typed => q_node_info lvl typed p d
+    | QBranchInfo sel => q_branch_info sel p d
+    | QSubs => l <- q_subs p d ;; Ok ([], l)
+    | QGrants true => l <- q_grants (if Nat.eqb (length p) 3 then removelast p else p) d ;; Ok ([], l)
+    | QGrants false => match p with [] => Err AttributeError | _ => l <- q_grants p d ;; Ok ([], l) end
+    | QAuthnEvents => q_authn_events p d
+    | QFindToken => kn <- q_node p d ;; if is_grant (snd kn) then Ok ([], []) else Err AttributeError
+    | QDecrypt => Ok (p, [])
+    | QMint => k <- branch_key p ;; Ok ([k], [])
+    end.
+
+  (* the extended history alphabet: the mutating operations, revocation / removal through an identifier, and the
+     queries (through a path or an identifier) *)
+  Inductive xop :=
+  | XOp (o : op)
+  | XRevokeId (t : target) (level : option nat)       (* revoke_sub_tree(branch_id, level) *)
+  | XRemoveId (t : target)                             (* remove_session / remove_branch(branch_id) *)
+  | XQuery (t : target) (q : qkind).
+
+  (* the mutating operation an extended operation stands for (None: a query) *)
+  Definition denote (x : xop) : res (option op) :=
+    match x with
+    | XOp o => Ok (Some o)
+    | XRevokeId t l => p <- target_path t ;; Ok (Some (ORevoke p l))
+    | XRemoveId t => p <- target_path t ;; Ok (Some (ODelete p))
+    | XQuery _ _ => Ok None
+    end.
+  Definition no_answer : answer := ([], []).
+  Definition xstep (d : db) (x : xop) : db * res answer :=
+    match x with
+    | XQuery t q => (d, p <- target_path t ;; query q p d)
+    | _ => match denote x with
+           | Ok (Some o) => let (d1, r) := step d o in (d1, _ <- r ;; Ok no_answer)
+           | Ok None => (d, Ok no_answer)
+           | Err e => (d, Err e)
+           | Unmodelled => (d, Unmodelled)
+           end
+    end.
+  Definition mut_ops (xs : list xop) : list op :=
+    flat_map (fun x => match denote x with Ok (Some o) => [o] | _ => [] end) xs.
+  Definition xrun (xs : list xop) (d : db) : db := fold_left (fun d x => fst (xstep d x)) xs d.
+  Definition is_query (x : xop) : bool := match x with XQuery _ _ => true | _ => false end.
 End Db.
 
 Arguments NInfo {G}. Arguments NGrant {G}.
 Arguments OAddGrant {G}. Arguments ORevoke {G}. Arguments ODelete {G}. Arguments OFlush {G}.
+Arguments XOp {G}. Arguments XRevokeId {G}. Arguments XRemoveId {G}. Arguments XQuery {G}.
